@@ -91,6 +91,19 @@ class AIter:
         self.pos = 0
 
 
+class ALazy:
+    """lazy (possibly infinite) iterable over abstract values: `factory()` returns a fresh python iterator"""
+
+    def __init__(self, factory):
+        self.factory = factory
+        self._it = None
+
+    def iterator(self):
+        if self._it is None:
+            self._it = self.factory()
+        return self._it
+
+
 class ACount:
     """itertools.count(start, step)"""
 
@@ -331,7 +344,9 @@ class Interp:
             return bool(v.d)
         if isinstance(v, AList):
             return bool(v.l)
-        if isinstance(v, (AMatch, ALine, ARegex, ModuleFunc, APart, AIter, ACount)):
+        if isinstance(v, (AMatch, ALine, ARegex, ModuleFunc, APart, AIter, ACount, ALazy)):
+            return True
+        if isinstance(v, tuple) and v and v[0] in ('bound', 'builtin', 'extern', 'hostattr', 'partial', 'closure', 'class'):
             return True
         if isinstance(v, Sym):
             if v.kind in ('group', 'parsed', 'unescaped', 'arglist', 'line', 'fstr'):
@@ -341,6 +356,13 @@ class Interp:
         raise Unrecognised(self.rule, f'truthiness of {v!r} is not decidable' + (f' at {norm(node)[:60]}' if node is not None else ''), None)
 
     def iterate(self, v, node):
+        if isinstance(v, ALazy):
+            out = []
+            for x in v.iterator():
+                out.append(x)
+                if len(out) > 20000:
+                    self.bad(node, 'unbounded lazy iterable consumed by a loop')
+            return out
         if isinstance(v, AIter):
             rest = v.items[v.pos:]
             v.pos = len(v.items)
@@ -356,6 +378,25 @@ class Interp:
         if isinstance(v, dict):
             return list(v.keys())
         self.bad(node, f'iteration over {type(v).__name__}')
+
+    def py_iter(self, v, node):
+        """a python iterator over an abstract iterable, lazily where the iterable is lazy"""
+        if isinstance(v, ALazy):
+            return v.iterator()
+        if isinstance(v, ACount):
+            def gen():
+                while True:
+                    x = v.value
+                    v.value += v.step
+                    yield x
+            return gen()
+        if isinstance(v, AIter):
+            def gen2():
+                while v.pos < len(v.items):
+                    v.pos += 1
+                    yield v.items[v.pos - 1]
+            return gen2()
+        return iter(self.iterate(v, node))
 
     def binop(self, op, a, b, node):
         if isinstance(a, (int, float, str)) and isinstance(b, (int, float, str)) and type(a) == type(b) or \
@@ -403,10 +444,12 @@ class Interp:
                     except Exception:
                         self._lazy[e.id] = self.eval(self.mod.assigns[e.id][0], {})
                 return self._lazy[e.id]
-            if e.id in ('set', 'frozenset', 'sorted', 'any', 'all', 'zip', 'abs', 'sum'):
+            if e.id in ('set', 'frozenset', 'sorted', 'any', 'all', 'zip', 'abs', 'sum', 'map', 'filter'):
                 return ('builtin', e.id)
             if e.id in self.mod.imports and self.mod.imports[e.id][1] is None:
                 return ('module', self.mod.imports[e.id][0])
+            if e.id in self.mod.imports and self.mod.imports[e.id][0] in ('functools', 'itertools', 'operator', 'math', 'statistics', 're'):
+                return ('hostattr', f'{self.mod.imports[e.id][0]}.{self.mod.imports[e.id][1]}')
             if e.id in self.mod.imports and getattr(self, 'repo', None) is not None:
                 modname, orig = self.mod.imports[e.id]
                 other = self.repo.resolve_module(modname)
@@ -543,6 +586,10 @@ class Interp:
             base = self.eval(e.value, env)
             if isinstance(base, tuple) and base and base[0] == 'module':
                 return ('hostattr', f'{base[1]}.{e.attr}')
+            if isinstance(base, tuple) and base and base[0] == 'hostattr':
+                return ('hostattr', f'{base[1]}.{e.attr}')
+            if isinstance(base, (ARegex, AList, ADict, str)) and not isinstance(getattr(e, 'ctx', None), ast.Store):
+                return ('bound', base, e.attr)
             if isinstance(base, Sym):
                 if base.kind == 'exc' and len(base.args) > 1:
                     a = base.args[1]
@@ -642,129 +689,14 @@ class Interp:
         args = None
         if isinstance(f, ast.Attribute):
             base = self.eval(f.value, env)
-            m = f.attr
             args = [self.eval(a, env) for a in e.args]
-            if e.keywords:
+            if e.keywords and not (isinstance(base, tuple) and base and base[0] == 'module'):
                 self.bad(e, 'keyword arguments in a method call')
-            r = self.method_hook(base, m, args, e)
-            if r is not NotImplemented:
-                return r
-            if isinstance(base, tuple) and base and base[0] == 'module':
-                r = self.host_function(f'{base[1]}.{m}', args, e)
-                if r is not NotImplemented:
-                    return r
-            if isinstance(base, ARegex):
-                if m == 'match':
-                    line = args[0]
-                    if isinstance(line, ALine):
-                        return AMatch(base.name, line) if (line.regex == base.name or base.name in line.also) else None
-                    return Sym('match', base.name, line)
-                if m == 'sub':
-                    subj = args[1]
-                    if isinstance(subj, ALine):
-                        return APart(subj) if subj.cont else subj
-                    return Sym('unescaped', subj)
-                if m == 'split':
-                    if isinstance(args[0], Sym) and args[0].kind == 'group':
-                        return Sym('arglist', args[0])
-                    return Sym('split', base.name, args[0])
-                self.bad(e, f'regex method {m}')
-            if isinstance(base, AMatch):
-                if m == 'group':
-                    return self.group(base, args[0] if args else 0, e)
-                if m in ('start', 'end', 'span'):
-                    return Sym(m, base.regex, args[0] if args else 0, base.line.lid)
-                self.bad(e, f'match method {m}')
-            if isinstance(base, dict) and m == 'get':
-                return base.get(args[0], args[1] if len(args) > 1 else None)
-            if isinstance(base, ADict):
-                if m == 'get':
-                    return base.d.get(args[0], args[1] if len(args) > 1 else None)
-                if m == 'keys':
-                    return list(base.d.keys())
-                if m == 'items':
-                    return list(base.d.items())
-                if m == 'values':
-                    return list(base.d.values())
-                if m == 'pop':
-                    if args[0] in base.d:
-                        return base.d.pop(args[0])
-                    if len(args) > 1:
-                        return args[1]
-                    raise RaiseSig('KeyError', (args[0],), e)
-                if m == 'setdefault':
-                    return base.d.setdefault(args[0], args[1] if len(args) > 1 else None)
-                if m == 'update':
-                    if isinstance(args[0], ADict):
-                        base.d.update(args[0].d)
-                        return None
-                    if isinstance(args[0], (list, tuple, AList)):
-                        for pair in self.iterate(args[0], e):
-                            k, v = self.iterate(pair, e)
-                            base.d[k] = v
-                        return None
-                if m == 'copy':
-                    return ADict(base.d)
-                self.bad(e, f'dict method {m}')
-            if isinstance(base, AList):
-                if m == 'append':
-                    base.l.append(args[0])
-                    self.trace.append(('append', id(base)))
-                    return None
-                if m == 'extend':
-                    base.l.extend(self.iterate(args[0], e))
-                    return None
-                if m == 'pop':
-                    if not base.l:
-                        raise RaiseSig('IndexError', ('pop from empty list',), e)
-                    self.trace.append(('pop', id(base)))
-                    return base.l.pop(*args)
-                if m == 'clear':
-                    base.l.clear()
-                    return None
-                if m == 'insert':
-                    base.l.insert(args[0], args[1])
-                    return None
-                if m == 'copy':
-                    return AList(base.l)
-                self.bad(e, f'list method {m}')
-            if isinstance(base, APart):
-                if m in ('strip', 'rstrip', 'lstrip'):
-                    return '' if base.line.cont == 'blank' else base
-                self.bad(e, f'method .{m}() on a continuation part')
-            if isinstance(base, (ALine, Sym)):
-                if m in ('strip', 'rstrip', 'lstrip'):
-                    return base
-                if m in ('startswith', 'endswith'):
-                    raise Unrecognised(self.rule, f'text predicate .{m}() on an abstract line', self.mod.rel)
-                return Sym('method', base, m)
-            if isinstance(base, str):
-                if m == 'join':
-                    items = self.iterate(args[0], e)
-                    if any(isinstance(x, (APart, ALine)) for x in items) or (items and all(x == '' for x in items) and False):
-                        last = items[-1]
-                        lids = tuple(x.line.lid if isinstance(x, APart) else (x.lid if isinstance(x, ALine) else None) for x in items)
-                        if isinstance(last, ALine):
-                            return ALine(last.lid, last.regex, last.groups, last.also, None, lids)
-                        return Sym('joined', lids)
-                    if len(items) == 1:
-                        return items[0]
-                    if all(isinstance(x, str) for x in items):
-                        return base.join(items)
-                    return Sym('join', tuple(items))
-                if m in ('strip', 'rstrip', 'lstrip', 'lower', 'upper') and not args:
-                    return getattr(base, m)()
-                if m in ('find', 'rfind', 'startswith', 'endswith', 'replace', 'count', 'index', 'rindex', 'strip', 'lstrip', 'rstrip', 'removeprefix', 'removesuffix') \
-                        and all(isinstance(a, (str, int)) and not isinstance(a, bool) for a in args):
-                    try:
-                        return getattr(base, m)(*args)
-                    except ValueError as exc:
-                        raise RaiseSig('ValueError', (str(exc),), e)
-                if m in ('find', 'rfind') and any(isinstance(a, float) for a in args):
-                    raise RaiseSig('TypeError', ('slice indices must be integers',), e)
-                if m == 'split' and all(isinstance(a, str) for a in args):
-                    return AList(base.split(*args))
-            self.bad(e, f'method call .{m}() on {type(base).__name__}')
+            if e.keywords:
+                self._kwargs = {kw.arg: self.eval(kw.value, env) for kw in e.keywords if kw.arg}
+            else:
+                self._kwargs = {}
+            return self.call_method(base, f.attr, args, e)
         if isinstance(f, ast.Name) and f.id in self.oracles and f.id not in env:
             return self.oracles[f.id]([self.eval(a, env) for a in e.args], e)
         fn = self.eval(f, env)
@@ -777,132 +709,7 @@ class Interp:
         if kwargs and not isinstance(fn, ModuleFunc):
             self.bad(e, 'keyword arguments outside the subset')
         if isinstance(fn, tuple) and fn[0] == 'builtin':
-            name = fn[1]
-            r = self.builtin_hook(name, args, e)
-            if r is not NotImplemented:
-                return r
-            if name == 'len':
-                v = args[0]
-                if isinstance(v, AList):
-                    return len(v.l)
-                if isinstance(v, ADict):
-                    return len(v.d)
-                if isinstance(v, (list, tuple, str, dict)):
-                    return len(v)
-                return Sym('len', v)
-            if name == 'iter':
-                return args[0] if isinstance(args[0], AIter) else AIter(self.iterate(args[0], e))
-            if name == 'next':
-                src = args[0]
-                if isinstance(src, ACount):
-                    v = src.value
-                    src.value += src.step
-                    return v
-                if isinstance(src, list):       # a generator expression evaluated eagerly
-                    src = AIter(src)
-                if not isinstance(src, AIter):
-                    self.bad(e, 'next() of a non-iterator')
-                if src.pos < len(src.items):
-                    src.pos += 1
-                    return src.items[src.pos - 1]
-                if len(args) > 1:
-                    return args[1]
-                raise RaiseSig('StopIteration', (), e)
-            if name == 'reversed':
-                return list(reversed(self.iterate(args[0], e)))
-            if name == 'zip':
-                seqs = [self.iterate(a, e) for a in args]
-                return [tuple(t) for t in zip(*seqs)]
-            if name == 'range':
-                if all(isinstance(a, int) and not isinstance(a, bool) for a in args) and 1 <= len(args) <= 3:
-                    r = range(*args)
-                    if len(r) > 10000:
-                        self.bad(e, 'range too long')
-                    return list(r)
-                self.bad(e, 'range over symbolic bounds')
-            if name in ('min', 'max') and args and all(isinstance(a, (int, float)) and not isinstance(a, bool) for a in args) and len(args) > 1:
-                return (min if name == 'min' else max)(*args)
-            if name == 'list':
-                return AList(self.iterate(args[0], e)) if args else AList()
-            if name == 'tuple':
-                return tuple(self.iterate(args[0], e))
-            if name == 'enumerate':
-                return [(i, x) for i, x in enumerate(self.iterate(args[0], e))]
-            if name == 'isinstance':
-                if isinstance(args[0], Sym) and args[0].kind == 'exc':
-                    classes = [norm(x) for x in (e.args[1].elts if isinstance(e.args[1], ast.Tuple) else [e.args[1]])]
-                    return args[0].args[0] in classes or 'Exception' in classes or 'BaseException' in classes
-                if isinstance(args[0], Sym):
-                    raise Unrecognised(self.rule, 'isinstance on a symbolic value', self.mod.rel)
-                v = args[0]
-                classes = self.class_names(e.args[1], args[1] if len(args) > 1 else None)
-                table = {'str': isinstance(v, (str, ALine)), 'dict': isinstance(v, ADict), 'list': isinstance(v, AList), 'int': isinstance(v, int),
-                         'float': isinstance(v, float), 'bool': isinstance(v, bool), 'complex': False, 'tuple': isinstance(v, tuple)}
-                concrete = v is None or isinstance(v, (int, float, str, bool, ADict, AList, tuple))
-                res = False
-                for cls in classes:
-                    if cls in table:
-                        res = res or table[cls]
-                    elif cls == 'object':
-                        res = True
-                    elif concrete and cls in ('datetime.date', 'datetime.datetime', 'REGEX_TYPE', 're.Pattern', 'uuid.UUID', 'date', 'datetime'):
-                        pass
-                    else:
-                        self.bad(e, f'isinstance class {cls} outside the subset')
-                return res
-            if name == 'dict':
-                out = ADict()
-                if args:
-                    if isinstance(args[0], ADict):
-                        out.d.update(args[0].d)
-                    else:
-                        for pair in self.iterate(args[0], e):
-                            k, v = self.iterate(pair, e)
-                            out.d[k] = v
-                return out
-            if name == 'sum' and args:
-                items = self.iterate(args[0], e)
-                if all(isinstance(x, (int, float)) and not isinstance(x, bool) for x in items):
-                    return sum(items)
-                self.bad(e, 'sum of non-numbers')
-            if name in ('min', 'max') and len(args) == 1:
-                items = self.iterate(args[0], e)
-                if items and all(isinstance(x, (int, float)) and not isinstance(x, bool) for x in items):
-                    return (min if name == 'min' else max)(items)
-                self.bad(e, f'{name} of non-numbers')
-            if name in ('set', 'frozenset'):
-                return frozenset(self.iterate(args[0], e)) if args else frozenset()
-            if name == 'str':
-                return str(args[0]) if isinstance(args[0], (int, str)) else Sym('str', args[0])
-            if name == 'bool':
-                return self.truth(args[0], e)
-            if name in ('int', 'float'):
-                if isinstance(args[0], (int, float)):
-                    try:
-                        return int(args[0]) if name == 'int' else float(args[0])
-                    except (ValueError, OverflowError) as exc:
-                        raise RaiseSig(type(exc).__name__, (str(exc),), e)
-                return Sym(name, args[0])
-            if name == 'ord' and isinstance(args[0], str) and len(args[0]) == 1:
-                return ord(args[0])
-            if name == 'chr' and isinstance(args[0], int):
-                return chr(args[0])
-            if name == 'abs' and isinstance(args[0], (int, float)):
-                return abs(args[0])
-            if name == 'type' and len(args) == 1:
-                v = args[0]
-                if isinstance(v, ARegex) or (isinstance(v, Sym) and v.kind in ('hostcall',) and v.args and v.args[0] == 're.compile'):
-                    return ('typeof', 're.Pattern')
-                if v is None:
-                    return ('typeof', 'type(None)')
-                for cls, nm in ((bool, 'bool'), (int, 'int'), (float, 'float'), (str, 'str'), (AList, 'list'), (ADict, 'dict')):
-                    if isinstance(v, cls):
-                        return ('builtin', nm)
-                self.bad(e, 'type() of an abstract value')
-            if name == 'callable':
-                return isinstance(args[0], (ModuleFunc,)) or (isinstance(args[0], tuple) and args[0] and args[0][0] in ('closure', 'partial', 'extern', 'builtin')) or \
-                    (isinstance(args[0], Sym) and args[0].kind == 'hostfn')
-            self.bad(e, f'builtin {name}')
+            return self.call_builtin(fn[1], args, e)
         if isinstance(fn, ModuleFunc):
             if fn.node.name == 'parse_expression':
                 if self.fail_parse is not None and self.fail_parse(args[0]):
@@ -911,7 +718,7 @@ class Interp:
             return self.call_function(fn.node, args, e, kwargs)
         if isinstance(fn, tuple) and fn and fn[0] == 'class':
             return Sym('instance', fn[1], tuple(args))
-        if isinstance(fn, tuple) and fn and fn[0] in ('closure', 'partial'):
+        if isinstance(fn, tuple) and fn and fn[0] in ('closure', 'partial', 'bound'):
             return self.apply(fn, args, e)
         r = self.call_value_hook(fn, args, e)
         if r is not NotImplemented:
@@ -953,8 +760,8 @@ class Interp:
 
     def class_names(self, node, value=None):
         """names of the classes an isinstance() second argument denotes: from the AST when it is written inline, otherwise from its evaluated value"""
-        elts = node.elts if isinstance(node, ast.Tuple) else [node]
-        if all(isinstance(x, (ast.Name, ast.Attribute)) for x in elts) and not any(isinstance(x, ast.Name) and x.id not in
+        elts = [] if node is None else (node.elts if isinstance(node, ast.Tuple) else [node])
+        if elts and all(isinstance(x, (ast.Name, ast.Attribute)) for x in elts) and not any(isinstance(x, ast.Name) and x.id not in
                                                                                       ('str', 'int', 'float', 'bool', 'list', 'dict', 'tuple', 'complex', 'object', 'REGEX_TYPE') for x in elts):
             return [norm(x) for x in elts]
 
@@ -978,7 +785,32 @@ class Interp:
     def call_value_hook(self, fn, args, e):
         if isinstance(fn, tuple) and fn and fn[0] == 'hostattr':
             return self.host_function(fn[1], args, e)
+        if isinstance(fn, tuple) and fn and fn[0] == 'extern' and fn[1] in ('functools', 'itertools', 'operator', 're', 'math', 'statistics'):
+            return self.host_function(f'{fn[1]}.{fn[2]}', args, e)
+        if isinstance(fn, tuple) and fn and fn[0] == 'itemgetter':
+            return self.eval_subscript_value(args[0], fn[1], e)
         return NotImplemented
+
+    def eval_subscript_value(self, base, key, e):
+        if isinstance(base, ADict):
+            if key not in base.d:
+                raise RaiseSig('KeyError', (key,), e)
+            return base.d[key]
+        if isinstance(base, AList) and isinstance(key, int):
+            try:
+                return base.l[key]
+            except IndexError:
+                raise RaiseSig('IndexError', (key,), e)
+        if isinstance(base, (tuple, list, str)) and isinstance(key, int):
+            try:
+                return base[key]
+            except IndexError:
+                raise RaiseSig('IndexError', (key,), e)
+        if isinstance(base, dict):
+            if key not in base:
+                raise RaiseSig('KeyError', (key,), e)
+            return base[key]
+        self.bad(e, f'getitem on {type(base).__name__}')
 
     OPERATOR_CMP = {'operator.lt': ast.Lt, 'operator.le': ast.LtE, 'operator.gt': ast.Gt, 'operator.ge': ast.GtE, 'operator.eq': ast.Eq, 'operator.ne': ast.NotEq,
                     'operator.is_': ast.Is, 'operator.is_not': ast.IsNot, 'operator.contains': None}
@@ -989,6 +821,61 @@ class Interp:
         """standard-library functions with exact models: itertools.count, the operator module"""
         if name == 're.compile':
             return ARegex('<anonymous>')
+        if name == 'functools.partial' and args:
+            kw = getattr(self, '_kwargs', {}) or {}
+            if kw:
+                self.bad(e, 'functools.partial with keyword arguments')
+            return ('partial', args[0], tuple(args[1:]))
+        if name == 'functools.reduce' and len(args) in (2, 3):
+            items = self.iterate(args[1], e)
+            if len(args) == 3:
+                acc = args[2]
+            elif items:
+                acc, items = items[0], items[1:]
+            else:
+                raise RaiseSig('TypeError', ('reduce() of empty iterable with no initial value',), e)
+            for x in items:
+                acc = self.apply(args[0], [acc, x], e)
+            return acc
+        if name == 'functools.cmp_to_key' and len(args) == 1:
+            return ('cmpkey', args[0])
+        if name == 'operator.getitem' and len(args) == 2:
+            return self.eval_subscript_value(args[0], args[1], e)
+        if name == 'operator.itemgetter' and len(args) == 1:
+            return ('itemgetter', args[0])
+        if name == 'itertools.repeat' and len(args) in (1, 2):
+            import itertools
+            v = args[0]
+            if len(args) == 2 and isinstance(args[1], int):
+                return ALazy(lambda: itertools.repeat(v, args[1]))
+            if len(args) == 1:
+                return ALazy(lambda: itertools.repeat(v))
+        if name == 'itertools.chain':
+            import itertools
+            its = list(args)
+            return ALazy(lambda: itertools.chain.from_iterable(self.py_iter(x, e) for x in its))
+        if name == 'itertools.chain.from_iterable' and len(args) == 1:
+            import itertools
+            outer = args[0]
+            return ALazy(lambda: itertools.chain.from_iterable(self.py_iter(x, e) for x in self.py_iter(outer, e)))
+        if name == 'itertools.islice' and len(args) in (2, 3, 4) and all(a is None or (isinstance(a, int) and not isinstance(a, bool)) for a in args[1:]):
+            import itertools
+            src, rest = args[0], args[1:]
+            return ALazy(lambda: itertools.islice(self.py_iter(src, e), *rest))
+        if name == 'itertools.zip_longest':
+            import itertools
+            kw = getattr(self, '_kwargs', {}) or {}
+            fill = kw.get('fillvalue')
+            its = list(args)
+            return ALazy(lambda: itertools.zip_longest(*[self.py_iter(x, e) for x in its], fillvalue=fill))
+        if name in ('itertools.filterfalse', 'itertools.takewhile', 'itertools.dropwhile') and len(args) == 2:
+            import itertools
+            fn, src = args
+            pred = (lambda x: self.truth(x, e)) if fn is None else (lambda x: self.truth(self.apply(fn, [x], e), e))
+            return ALazy(lambda: getattr(itertools, name.split('.')[1])(pred, self.py_iter(src, e)))
+        if name == 'itertools.starmap' and len(args) == 2:
+            fn, src = args
+            return ALazy(lambda: (self.apply(fn, list(self.iterate(t, e)), e) for t in self.py_iter(src, e)))
         if name == 'itertools.count':
             if all(isinstance(a, int) and not isinstance(a, bool) for a in args) and len(args) <= 2:
                 return ACount(*args)
@@ -1010,6 +897,15 @@ class Interp:
             return self.call_function(fn.node, list(args), at)
         if isinstance(fn, tuple) and fn and fn[0] == 'partial':
             return self.apply(fn[1], list(fn[2]) + list(args), at)
+        if isinstance(fn, tuple) and fn and fn[0] == 'bound':
+            self._kwargs = {}
+            return self.call_method(fn[1], fn[2], list(args), at)
+        if isinstance(fn, tuple) and fn and fn[0] == 'builtin':
+            return self.call_builtin(fn[1], list(args), at)
+        if isinstance(fn, tuple) and fn and fn[0] == 'hostattr':
+            r = self.host_function(fn[1], list(args), at)
+            if r is not NotImplemented:
+                return r
         if isinstance(fn, tuple) and fn and fn[0] == 'extern' and fn[2] in self.oracles:
             return self.oracles[fn[2]](list(args), at)
         r = self.call_value_hook(fn, list(args), at)
@@ -1024,6 +920,283 @@ class Interp:
             env.update(zip(params, args))
             return self.eval(lam.body, env)
         self.bad(at, f'value {fn!r} is not callable')
+
+    def call_method(self, base, m, args, e):
+        """method `m` of the abstract value `base` applied to evaluated arguments"""
+        r = self.method_hook(base, m, args, e)
+        if r is not NotImplemented:
+            return r
+        if isinstance(base, tuple) and base and base[0] == 'module':
+            r = self.host_function(f'{base[1]}.{m}', args, e)
+            if r is not NotImplemented:
+                return r
+        if isinstance(base, ARegex):
+            if m == 'match':
+                line = args[0]
+                if isinstance(line, ALine):
+                    return AMatch(base.name, line) if (line.regex == base.name or base.name in line.also) else None
+                return Sym('match', base.name, line)
+            if m == 'sub':
+                subj = args[1]
+                if isinstance(subj, ALine):
+                    return APart(subj) if subj.cont else subj
+                return Sym('unescaped', subj)
+            if m == 'split':
+                if isinstance(args[0], Sym) and args[0].kind == 'group':
+                    return Sym('arglist', args[0])
+                return Sym('split', base.name, args[0])
+            self.bad(e, f'regex method {m}')
+        if isinstance(base, AMatch):
+            if m == 'group':
+                return self.group(base, args[0] if args else 0, e)
+            if m in ('start', 'end', 'span'):
+                return Sym(m, base.regex, args[0] if args else 0, base.line.lid)
+            self.bad(e, f'match method {m}')
+        if isinstance(base, dict) and m == 'get':
+            return base.get(args[0], args[1] if len(args) > 1 else None)
+        if isinstance(base, ADict):
+            if m == 'get':
+                return base.d.get(args[0], args[1] if len(args) > 1 else None)
+            if m == 'keys':
+                return list(base.d.keys())
+            if m == 'items':
+                return list(base.d.items())
+            if m == 'values':
+                return list(base.d.values())
+            if m == 'pop':
+                if args[0] in base.d:
+                    return base.d.pop(args[0])
+                if len(args) > 1:
+                    return args[1]
+                raise RaiseSig('KeyError', (args[0],), e)
+            if m == 'setdefault':
+                return base.d.setdefault(args[0], args[1] if len(args) > 1 else None)
+            if m == 'update':
+                if isinstance(args[0], ADict):
+                    base.d.update(args[0].d)
+                    return None
+                if isinstance(args[0], (list, tuple, AList)):
+                    for pair in self.iterate(args[0], e):
+                        k, v = self.iterate(pair, e)
+                        base.d[k] = v
+                    return None
+            if m == 'copy':
+                return ADict(base.d)
+            self.bad(e, f'dict method {m}')
+        if isinstance(base, AList):
+            if m == 'append':
+                base.l.append(args[0])
+                self.trace.append(('append', id(base)))
+                return None
+            if m == 'extend':
+                base.l.extend(self.iterate(args[0], e))
+                return None
+            if m == 'pop':
+                if not base.l:
+                    raise RaiseSig('IndexError', ('pop from empty list',), e)
+                self.trace.append(('pop', id(base)))
+                return base.l.pop(*args)
+            if m == 'clear':
+                base.l.clear()
+                return None
+            if m == 'insert':
+                base.l.insert(args[0], args[1])
+                return None
+            if m == 'copy':
+                return AList(base.l)
+            self.bad(e, f'list method {m}')
+        if isinstance(base, APart):
+            if m in ('strip', 'rstrip', 'lstrip'):
+                return '' if base.line.cont == 'blank' else base
+            self.bad(e, f'method .{m}() on a continuation part')
+        if isinstance(base, (ALine, Sym)):
+            if m in ('strip', 'rstrip', 'lstrip'):
+                return base
+            if m in ('startswith', 'endswith'):
+                raise Unrecognised(self.rule, f'text predicate .{m}() on an abstract line', self.mod.rel)
+            return Sym('method', base, m)
+        if isinstance(base, str):
+            if m == 'join':
+                items = self.iterate(args[0], e)
+                if any(isinstance(x, (APart, ALine)) for x in items) or (items and all(x == '' for x in items) and False):
+                    last = items[-1]
+                    lids = tuple(x.line.lid if isinstance(x, APart) else (x.lid if isinstance(x, ALine) else None) for x in items)
+                    if isinstance(last, ALine):
+                        return ALine(last.lid, last.regex, last.groups, last.also, None, lids)
+                    return Sym('joined', lids)
+                if len(items) == 1:
+                    return items[0]
+                if all(isinstance(x, str) for x in items):
+                    return base.join(items)
+                return Sym('join', tuple(items))
+            if m in ('strip', 'rstrip', 'lstrip', 'lower', 'upper') and not args:
+                return getattr(base, m)()
+            if m in ('find', 'rfind', 'startswith', 'endswith', 'replace', 'count', 'index', 'rindex', 'strip', 'lstrip', 'rstrip', 'removeprefix', 'removesuffix') \
+                    and all(isinstance(a, (str, int)) and not isinstance(a, bool) for a in args):
+                try:
+                    return getattr(base, m)(*args)
+                except ValueError as exc:
+                    raise RaiseSig('ValueError', (str(exc),), e)
+            if m in ('find', 'rfind') and any(isinstance(a, float) for a in args):
+                raise RaiseSig('TypeError', ('slice indices must be integers',), e)
+            if m == 'split' and all(isinstance(a, str) for a in args):
+                return AList(base.split(*args))
+        self.bad(e, f'method call .{m}() on {type(base).__name__}')
+
+    def call_builtin(self, name, args, e):
+        r = self.builtin_hook(name, args, e)
+        if r is not NotImplemented:
+            return r
+        if name == 'len':
+            v = args[0]
+            if isinstance(v, AList):
+                return len(v.l)
+            if isinstance(v, ADict):
+                return len(v.d)
+            if isinstance(v, (list, tuple, str, dict)):
+                return len(v)
+            return Sym('len', v)
+        if name == 'iter':
+            if isinstance(args[0], (ALazy, ACount)):
+                return args[0]
+            return args[0] if isinstance(args[0], AIter) else AIter(self.iterate(args[0], e))
+        if name == 'next':
+            src = args[0]
+            if isinstance(src, ALazy):
+                try:
+                    return next(src.iterator())
+                except StopIteration:
+                    if len(args) > 1:
+                        return args[1]
+                    raise RaiseSig('StopIteration', (), e)
+            if isinstance(src, ACount):
+                v = src.value
+                src.value += src.step
+                return v
+            if isinstance(src, list):       # a generator expression evaluated eagerly
+                src = AIter(src)
+            if not isinstance(src, AIter):
+                self.bad(e, 'next() of a non-iterator')
+            if src.pos < len(src.items):
+                src.pos += 1
+                return src.items[src.pos - 1]
+            if len(args) > 1:
+                return args[1]
+            raise RaiseSig('StopIteration', (), e)
+        if name == 'reversed':
+            return list(reversed(self.iterate(args[0], e)))
+        if name == 'zip':
+            if any(isinstance(a, (ALazy, ACount)) for a in args):
+                its = [self.py_iter(a, e) for a in args]
+                if not any(isinstance(a, (AList, ADict, list, tuple, AIter)) for a in args):
+                    self.bad(e, 'zip of unbounded iterables only')
+                return [tuple(t) for t in zip(*its)]
+            seqs = [self.iterate(a, e) for a in args]
+            return [tuple(t) for t in zip(*seqs)]
+        if name == 'map' and len(args) >= 2:
+            fn, srcs = args[0], args[1:]
+            return ALazy(lambda: (self.apply(fn, list(t), e) for t in zip(*[self.py_iter(x, e) for x in srcs])))
+        if name == 'filter' and len(args) == 2:
+            fn, src = args
+            return ALazy(lambda: (x for x in self.py_iter(src, e) if (self.truth(x, e) if fn is None else self.truth(self.apply(fn, [x], e), e))))
+        if name in ('any', 'all') and len(args) == 1:
+            for x in self.py_iter(args[0], e):
+                t = self.truth(x, e)
+                if name == 'any' and t:
+                    return True
+                if name == 'all' and not t:
+                    return False
+            return name == 'all'
+        if name == 'range':
+            if all(isinstance(a, int) and not isinstance(a, bool) for a in args) and 1 <= len(args) <= 3:
+                r = range(*args)
+                if len(r) > 10000:
+                    self.bad(e, 'range too long')
+                return list(r)
+            self.bad(e, 'range over symbolic bounds')
+        if name in ('min', 'max') and args and all(isinstance(a, (int, float)) and not isinstance(a, bool) for a in args) and len(args) > 1:
+            return (min if name == 'min' else max)(*args)
+        if name == 'list':
+            return AList(self.iterate(args[0], e)) if args else AList()
+        if name == 'tuple':
+            return tuple(self.iterate(args[0], e))
+        if name == 'enumerate':
+            return [(i, x) for i, x in enumerate(self.iterate(args[0], e))]
+        if name == 'isinstance':
+            if isinstance(args[0], Sym) and args[0].kind == 'exc':
+                classes = [norm(x) for x in (e.args[1].elts if isinstance(e.args[1], ast.Tuple) else [e.args[1]])]
+                return args[0].args[0] in classes or 'Exception' in classes or 'BaseException' in classes
+            if isinstance(args[0], Sym):
+                raise Unrecognised(self.rule, 'isinstance on a symbolic value', self.mod.rel)
+            v = args[0]
+            classes = self.class_names(e.args[1], args[1] if len(args) > 1 else None)
+            table = {'str': isinstance(v, (str, ALine)), 'dict': isinstance(v, ADict), 'list': isinstance(v, AList), 'int': isinstance(v, int),
+                     'float': isinstance(v, float), 'bool': isinstance(v, bool), 'complex': False, 'tuple': isinstance(v, tuple)}
+            concrete = v is None or isinstance(v, (int, float, str, bool, ADict, AList, tuple))
+            res = False
+            for cls in classes:
+                if cls in table:
+                    res = res or table[cls]
+                elif cls == 'object':
+                    res = True
+                elif concrete and cls in ('datetime.date', 'datetime.datetime', 'REGEX_TYPE', 're.Pattern', 'uuid.UUID', 'date', 'datetime'):
+                    pass
+                else:
+                    self.bad(e, f'isinstance class {cls} outside the subset')
+            return res
+        if name == 'dict':
+            out = ADict()
+            if args:
+                if isinstance(args[0], ADict):
+                    out.d.update(args[0].d)
+                else:
+                    for pair in self.iterate(args[0], e):
+                        k, v = self.iterate(pair, e)
+                        out.d[k] = v
+            return out
+        if name == 'sum' and args:
+            items = self.iterate(args[0], e)
+            if all(isinstance(x, (int, float)) and not isinstance(x, bool) for x in items):
+                return sum(items)
+            self.bad(e, 'sum of non-numbers')
+        if name in ('min', 'max') and len(args) == 1:
+            items = self.iterate(args[0], e)
+            if items and all(isinstance(x, (int, float)) and not isinstance(x, bool) for x in items):
+                return (min if name == 'min' else max)(items)
+            self.bad(e, f'{name} of non-numbers')
+        if name in ('set', 'frozenset'):
+            return frozenset(self.iterate(args[0], e)) if args else frozenset()
+        if name == 'str':
+            return str(args[0]) if isinstance(args[0], (int, str)) else Sym('str', args[0])
+        if name == 'bool':
+            return self.truth(args[0], e)
+        if name in ('int', 'float'):
+            if isinstance(args[0], (int, float)):
+                try:
+                    return int(args[0]) if name == 'int' else float(args[0])
+                except (ValueError, OverflowError) as exc:
+                    raise RaiseSig(type(exc).__name__, (str(exc),), e)
+            return Sym(name, args[0])
+        if name == 'ord' and isinstance(args[0], str) and len(args[0]) == 1:
+            return ord(args[0])
+        if name == 'chr' and isinstance(args[0], int):
+            return chr(args[0])
+        if name == 'abs' and isinstance(args[0], (int, float)):
+            return abs(args[0])
+        if name == 'type' and len(args) == 1:
+            v = args[0]
+            if isinstance(v, ARegex) or (isinstance(v, Sym) and v.kind in ('hostcall',) and v.args and v.args[0] == 're.compile'):
+                return ('typeof', 're.Pattern')
+            if v is None:
+                return ('typeof', 'type(None)')
+            for cls, nm in ((bool, 'bool'), (int, 'int'), (float, 'float'), (str, 'str'), (AList, 'list'), (ADict, 'dict')):
+                if isinstance(v, cls):
+                    return ('builtin', nm)
+            self.bad(e, 'type() of an abstract value')
+        if name == 'callable':
+            return isinstance(args[0], (ModuleFunc,)) or (isinstance(args[0], tuple) and args[0] and args[0][0] in ('closure', 'partial', 'extern', 'builtin')) or \
+                (isinstance(args[0], Sym) and args[0].kind == 'hostfn')
+        self.bad(e, f'builtin {name}')
 
     def method_hook(self, base, m, args, e):
         return NotImplemented
